@@ -334,6 +334,7 @@ R4_RULES = [
      r'vx_chain3_collect(&\g<a>.payload, &\g<b>.payload, &\g<c>.payload)', None),
     ('R4-pair-with-clone', r'(?P<e>\b\w+)\s*\.\s*iter\(\)\s*\.\s*cloned\(\)\s*\.\s*map\(\s*\|x\|\s*\(x,\s*(?P<s>\w+)\.clone\(\)\)\s*\)\s*\.\s*collect\(\)', r'vx_pair_with_clone(&\g<e>, &\g<s>)', None),
     ('R4-retain-round-gt', r'(?P<e>\b\w+)\s*\.\s*retain\(\s*\|_,\s*\(r,\s*_\)\|\s*r\s*>\s*&mut\s+(?P<r>\w+)\s*\)', r'vx_retain_round_gt(&mut \g<e>, \g<r>)', None),
+    ('R4-now-millis', r'SystemTime\s*::\s*now\(\)\s*\.\s*duration_since\(\s*UNIX_EPOCH\s*\)\s*\.\s*expect\(\s*"[^"]*"\s*\)\s*\.\s*as_millis\(\)', r'vx_now_millis()', None),
     ('R4-map-const', r'\.\s*map\s*\(\s*\|\s*_\s*\|\s*(?P<v>Some\s*\(\s*\w+\s*\)|\w+)\s*\)', r'.vx_map_const(\g<v>)', None),
     ('R11-eta', r'\.\s*map_err\s*\(\s*(?P<c>[A-Z]\w*::[A-Z]\w*)\s*\)', r'.map_err(|e| \g<c>(e))', None),
     ('R4-map-unwrap', r'(?P<e>\b\w+)\s*\.\s*map\s*\(\s*\|\s*x\s*\|\s*x\s*\.\s*unwrap\s*\(\s*\)\s*\)', r'vx_map_unwrap(\g<e>)', None),
@@ -1166,8 +1167,22 @@ class Generator:
                     if it is None:
                         ent['error'] = 'function not found'
                     else:
-                        # token text only: comments and layout do not count as a change
-                        txt = ' '.join(t_.text for t_ in sf.toks[it.fn_kw:it.body_close + 1])
+                        # token text only: comments and layout do not count as a change; the bodies of spawned tasks that the
+                        # template lifts out of this function (`//@block .. spawn N`) are verified, not assumed: left out
+                        skip = set()
+                        lifted_n = [sg[1].lift[0] for sg in segs if sg[0] == 'fn' and sg[1].mode == 'block' and sg[1].lift[2] == 'spawn'
+                                    and sg[1].file == rel and sg[1].target == (ty, tr, name)]
+                        if lifted_n:
+                            tk = sf.toks
+                            sp_ = [z for z in range(it.body_open, it.body_close) if tk[z].kind == 'ident' and tk[z].text == 'spawn'
+                                   and tk[z - 1].text == '::' and tk[z + 1].text == '(' and tk[z + 2].text == 'async']
+                            for n_l in lifted_n:
+                                if n_l <= len(sp_):
+                                    z = sp_[n_l - 1] + 2
+                                    while tk[z].text != '{':
+                                        z += 1
+                                    skip.update(range(z + 1, match_close(tk, z)))
+                        txt = ' '.join(t_.text for k_, t_ in enumerate(sf.toks[it.fn_kw:it.body_close + 1], it.fn_kw) if k_ not in skip)
                         ent['sha256'] = hashlib.sha256(txt.encode()).hexdigest()
                 except (GenError, LexError) as e:
                     ent['error'] = str(e)
